@@ -300,6 +300,48 @@ inline std::string crash_site(const std::vector<std::string>& frames)
 }
 
 // ---------------------------------------------------------------------------
+// AddressSanitizer as an oracle: reports are recorded (run continues with
+// -fsanitize-recover=address / halt_on_error=0) and turned into violations.
+// ---------------------------------------------------------------------------
+#if defined(__SANITIZE_ADDRESS__)
+#define VX_ASAN 1
+#elif defined(__has_feature)
+#if __has_feature(address_sanitizer)
+#define VX_ASAN 1
+#endif
+#endif
+#ifdef VX_ASAN
+extern "C" {
+   const char* __asan_get_report_description();
+   void* __asan_get_report_pc();
+   int __asan_get_report_access_type();
+   void __sanitizer_symbolize_pc(void* pc, const char* fmt, char* out_buf, size_t out_buf_size);
+}
+static char g_asan_report[512];
+extern "C" void __asan_on_error()
+{
+   if(g_asan_report[0]) return;   // keep the first report of a case
+   char fn[256];
+   fn[0] = 0;
+   __sanitizer_symbolize_pc(__asan_get_report_pc(), "%f", fn, sizeof fn);
+   snprintf(g_asan_report, sizeof g_asan_report, "%s:%s:%s", __asan_get_report_description(),
+            __asan_get_report_access_type() ? "write" : "read", fn);
+}
+inline std::string take_asan_report()
+{
+   std::string r = g_asan_report;
+   g_asan_report[0] = 0;
+   if(r.empty()) return r;
+   // shorten the function name
+   size_t p = r.find(':');
+   size_t q = r.find(':', p + 1);
+   return "asan:" + r.substr(0, q + 1) + short_fn(r.substr(q + 1));
+}
+#else
+inline std::string take_asan_report() { return std::string(); }
+#endif
+
+// ---------------------------------------------------------------------------
 // Runner
 // ---------------------------------------------------------------------------
 struct RunOpts
@@ -414,6 +456,11 @@ inline RunResult run_parallel(uint64_t N, const CaseFn& fn, const DescFn& descri
                   catch(...)
                   {
                      ctx.violation("escaped-exception:unknown" + (sigsuffix ? sigsuffix(idx, shm[w].sub) : std::string()), describe(idx, shm[w].sub), "");
+                  }
+                  {
+                     std::string ar = take_asan_report();
+                     if(!ar.empty())
+                        ctx.violation(ar + (sigsuffix ? sigsuffix(idx, shm[w].sub) : std::string()), describe(idx, shm[w].sub), "AddressSanitizer report (see stderr of the run)");
                   }
                   shm[w].done++;
                   if(dig)
@@ -764,6 +811,10 @@ inline int replay_case(const std::function<void(Ctx&)>& fn)
       char* dn = abi::__cxa_demangle(typeid(e).name(), 0, 0, &st);
       printf("REPLAY-SIG escaped-exception:%s\n", dn ? dn : "?");
       free(dn);
+   }
+   {
+      std::string ar = take_asan_report();
+      if(!ar.empty()) c.violation(ar, "", "AddressSanitizer report");
    }
    for(auto& kv : c.viol)
    {
